@@ -77,6 +77,27 @@ def occupancy(events):
     return tuple(tuple(occ[j]) for kk, j in st if kk == "cpp_class")
 
 
+def member_pattern(events):
+    """order abstraction of the members declared so far in the innermost open class: one letter per member (R = the
+    overloadable fixed name, O = any other), consecutive repeats collapsed, last three kept - 'R O R' must not be merged
+    with 'O R R'"""
+    st, pats = [], {}
+    for i, ev in enumerate(events):
+        k = ev["k"]
+        if k in cmakegen.OPENERS:
+            cls = next((j for kk, j in reversed(st) if kk == "cpp_class"), None)
+            if cls is not None and k in ("cpp_member", "cpp_constructor"):
+                sym = "R" if "name" in ev else "O"
+                if not pats[cls] or pats[cls][-1] != sym:
+                    pats[cls] = (pats[cls] + sym)[-3:]
+            st.append((k, i))
+            if k == "cpp_class":
+                pats[i] = ""
+        elif k == "close":
+            st.pop()
+    return tuple(pats[j] for kk, j in st if kk == "cpp_class")
+
+
 ONLY = None
 
 
@@ -105,7 +126,7 @@ def expand(history, maxnest, depth, case):
         msgs, dg, nt, impl = _transition(h2, depth, case)
         key = None
         if len(h2) < depth:
-            key = (statespace.model_key(h2), occupancy(h2), impl)
+            key = (statespace.model_key(h2), occupancy(h2), member_pattern(h2), impl)
         r = modsearch.result(ev, key, msgs, dg, nt)
         r["n"] = len(CONFIGS)
         out.append(r)
